@@ -326,6 +326,10 @@ func (db *DB) OpenTransaction() (*Transaction, error) {
 		if _, err := db.rotateMem(0, true); err != nil {
 			return nil, err
 		}
+	} else if err := db.compTriggerWait(db.mcompCmdC); err != nil {
+		// A frozen memdb may still be flushing; the transaction's tables
+		// must not be committed ahead of it.
+		return nil, err
 	}
 
 	// Wait compaction when certain threshold reached.
